@@ -154,3 +154,6 @@ def run(ctx):
     from .C16 import r16_1
     from ..jsontab import JsonTables
     r16_1(ctx, JsonTables(ctx))
+    # a sub-project result that comes from a backward run: its absence steps are re-mapped by reverse_log_information
+    from .C18 import r18_5
+    r18_5(ctx)
